@@ -600,24 +600,35 @@ pub struct InCase {
     /// the per-iteration closure of run() / block_on() inserts an idle each time it runs (belongs to the next iteration)
     #[serde(default)]
     pub closure_idle: bool,
+    /// block_on only: the future itself requests stop() + wakeup() during its FIRST poll (an "abort" path) and stays
+    /// pending: the request was made after block_on() began, so the call finishes that iteration and returns None
+    #[serde(default)]
+    pub first_poll_stop: bool,
 }
 
 pub fn in_strategy() -> impl Strategy<Value = InCase> {
     let act = prop_oneof![3 => Just(InAct::Stop), 3 => Just(InAct::Complete), 4 => Just(InAct::Wake), 1 => Just(InAct::Wakeup), 2 => Just(InAct::Idle), 2 => Just(InAct::IdleChain)];
-    (proptest::collection::vec(any::<bool>(), 0..=2), any::<bool>(), proptest::collection::vec(proptest::collection::vec(act, 0..=4), 1..=5), prop::bool::weighted(0.3))
-        .prop_map(|(prelude, block_on, rounds, closure_idle)| InCase { prelude, block_on, rounds, closure_idle })
+    (proptest::collection::vec(any::<bool>(), 0..=2), any::<bool>(), proptest::collection::vec(proptest::collection::vec(act, 0..=4), 1..=5), prop::bool::weighted(0.3), prop::bool::weighted(0.2))
+        .prop_map(|(prelude, block_on, rounds, closure_idle, first_poll_stop)| InCase { prelude, block_on, rounds, closure_idle, first_poll_stop: first_poll_stop && block_on })
 }
 
 struct InFut {
     complete: Arc<AtomicBool>,
     waker: Arc<Mutex<Option<Waker>>>,
     polls: Arc<AtomicU32>,
+    /// stop() + wakeup() requested by the first poll
+    stop_on_first: Option<calloop::LoopSignal>,
 }
 
 impl Future for InFut {
     type Output = u32;
     fn poll(self: Pin<&mut Self>, cx: &mut Context<'_>) -> Poll<u32> {
-        self.polls.fetch_add(1, Ordering::SeqCst);
+        if self.polls.fetch_add(1, Ordering::SeqCst) == 0 {
+            if let Some(sig) = &self.stop_on_first {
+                sig.stop();
+                sig.wakeup();
+            }
+        }
         *self.waker.lock().unwrap() = Some(cx.waker().clone());
         if self.complete.load(Ordering::SeqCst) {
             Poll::Ready(4242)
@@ -633,6 +644,13 @@ pub fn run_inloop(case: &InCase) -> CaseOutcome {
     let mut rounds = case.rounds.clone();
     // the harness's own ending: a last round that stops (counts as "ended by the harness" if reached)
     rounds.push(vec![InAct::Stop]);
+    // what the timer callback really does; the model's first round additionally sees the stop of the first poll
+    let real_rounds = rounds.clone();
+    let first_poll_stop = case.block_on && case.first_poll_stop;
+    if first_poll_stop {
+        // the stop request of the first poll is seen at the next loop head, i.e. after the first iteration's dispatch
+        rounds[0].insert(0, InAct::Stop);
+    }
     let mut m_ready = false; // future_ready after the initial poll
     let mut m_complete = false;
     let mut m_polls_min = 1u32; // initial poll
@@ -682,7 +700,7 @@ pub fn run_inloop(case: &InCase) -> CaseOutcome {
     let mut prelude_viol: Option<Violation> = None;
     for (k, ready_at_once) in case.prelude.iter().enumerate() {
         let polls = Arc::new(AtomicU32::new(0));
-        let fut = InFut { complete: Arc::new(AtomicBool::new(*ready_at_once)), waker: Arc::new(Mutex::new(None)), polls: polls.clone() };
+        let fut = InFut { complete: Arc::new(AtomicBool::new(*ready_at_once)), waker: Arc::new(Mutex::new(None)), polls: polls.clone(), stop_on_first: None };
         if !*ready_at_once {
             let sig = signal.clone();
             handle
@@ -717,7 +735,7 @@ pub fn run_inloop(case: &InCase) -> CaseOutcome {
     let idles_ran = Arc::new(AtomicU32::new(0));
     let closure_runs = Arc::new(AtomicU32::new(0));
     {
-        let rounds = rounds.clone();
+        let rounds = real_rounds.clone();
         let (complete, waker, cb_rounds, idles_ran, signal) = (complete.clone(), waker.clone(), cb_rounds.clone(), idles_ran.clone(), signal.clone());
         let weak = handle.downgrade();
         handle
@@ -794,7 +812,7 @@ pub fn run_inloop(case: &InCase) -> CaseOutcome {
         }
     };
     let got: Result<Option<u32>, String> = if case.block_on {
-        el.block_on(InFut { complete: complete.clone(), waker: waker.clone(), polls: polls.clone() }, &mut (), move |_| closure())
+        el.block_on(InFut { complete: complete.clone(), waker: waker.clone(), polls: polls.clone(), stop_on_first: if first_poll_stop { Some(signal.clone()) } else { None } }, &mut (), move |_| closure())
         .map_err(|e| format!("{e}"))
     } else {
         el.run(None, &mut (), move |_| closure())
@@ -812,6 +830,9 @@ pub fn run_inloop(case: &InCase) -> CaseOutcome {
     }
     if !case.prelude.is_empty() {
         info.classes.push("inloop_after_an_earlier_block_on_on_the_same_loop");
+    }
+    if first_poll_stop {
+        info.classes.push("inloop_stop_requested_by_the_first_poll");
     }
     let viol = (|| {
         if let Some(v) = prelude_viol {
